@@ -2,6 +2,7 @@
 From V.lib Require Import Base.
 From V.c13 Require Import C13Spec C13Model.
 From V.c15 Require Import C15Model C15Spec.
+From V.c15 Require Import C15AvcConfModel C15AvcConfSpec.
 From V.c15 Require Import C15HevcModel C15HevcSpec.
 From V.c15 Require Import C15HevcConfModel C15HevcConfSpec.
 Require Import ExtrOcamlBasic.
@@ -11,6 +12,7 @@ Separate Extraction
   parse_pps_er parse_pps_br flat_pps nalu_pps expected_pps pps_valid
   parse_slice_er parse_slice_br flat_slice nalu_slice expected_slice slice_valid
   eff_l0 eff_l1 slice_group_change_cycle_bits sl_has_fmo_cycle eff_chroma_format_idc
+  conf_obs_er expected_conf_obs decode_obs expected_decode_obs confrec_syntax_valid confrec_of_sps ser_confrec
   hparse_sps_er hparse_sps_br flat_hsps hnalu_sps expected_hsps hsps_valid
   derive_one derive_all d_num_delta d_num_used hrps_valid expected_himage_size
   hparse_pps_er hparse_pps_br flat_hpps hnalu_pps expected_hpps hpps_valid
